@@ -323,7 +323,7 @@ def judge(case, model, obs, V, stats):
         if tie is None:
             return None
     if code_fail:
-        sig = 'fill_var_rec-safe-mode-rank-keeps-own-code' if (case['api'] == 'fill_var_rec' and case['safe'] == 1 and 'different codes' in code_fail) \
+        sig = 'fill_var_rec-safe-mode-rank-keeps-own-code' if (case['api'] == 'fill_var_rec' and case['safe'] == 1 and 'different codes' in code_fail and tie is None) \
             else 'wrong-code-or-data:%s' % case['api']
         V.failing_input(sig, code_fail, dict(case=desc, ranks=n, observed={str(k): v for k, v in R.items()}, data={str(k): v for k, v in D.items()},
                                             harness='harness/c08_coll.c'))
@@ -423,11 +423,14 @@ def run_check(tier, seed):
                 done = set(res.keys())
                 rest = [c for c in cs if c['id'] not in done]
                 rerun.append((n, rest))
+        # a batch that died hides the cases after the one that hung: run a bounded sample of them one by one
+        refs = []
         for n, rest in rerun:
-            # run the remaining cases one by one so that a single bad case cannot hide the others
-            for c in rest[:40]:
-                res, ended, rc = run_harness(exe, wd, 'x_' + c['id'], n, [c['line'].replace(' |', ' tmo=8 |', 1)], 60)
-                obs.update(res)
+            for c in rest[:12]:
+                refs.append(pool.submit(run_harness, exe, wd, 'x_' + c['id'], n, [c['line'].replace(' |', ' tmo=8 |', 1)], 60))
+        for f in refs:
+            res, ended, rc = f.result()
+            obs.update(res)
         for cid, f in futs.items():
             res, ended, rc = f.result()
             obs.update(res)
